@@ -685,6 +685,11 @@ func (u *Upgrader) commResponse(conn net.Conn, responseHeader http.Header, chall
 		return err
 	}
 
+	if u.HandshakeTimeout > 0 {
+		// the deadline was for the handshake only.
+		_ = conn.SetWriteDeadline(time.Time{})
+	}
+
 	return nil
 }
 
